@@ -32,7 +32,7 @@ from . import common, util_lie as U
 from .common import Ctx
 
 META = {
-    "rule": "reuse + corpus (seed-independent): a call history under one batch shape with type/dtype/regimes changing between calls; every ordered pair / each alone / all together of 8 representative items per type; views (strided, batch-sliced, transposed, expanded); all pairs of corner values theta in {0,smallest subnormal,1e-300,1e-30,eps-1ulp,eps,eps+1ulp,2eps,64eps,sqrt(eps),1e-3,1,"
+    "rule": "reuse + corpus (seed-independent): call histories under one batch shape with type/dtype/regimes/grad modes changing between calls in three orders, failing calls interleaved; copies probe (deepcopy/pickle/clone, two generations); every grad mode / operand type (no_grad, inference_mode, in-graph, leaf, plain Tensor, pp.Parameter, nn.Parameter) x memory layout with output-ownership checks; special batch shapes (3, 4, 6, 7, 8, primes in every position); threshold density eps(1 +- k ulp, 2^-10, 1e-3); every ordered pair / each alone / all together of 8 representative items per type; views (strided, batch-sliced, transposed, expanded); all pairs of corner values theta in {0,smallest subnormal,1e-300,1e-30,eps-1ulp,eps,eps+1ulp,2eps,64eps,sqrt(eps),1e-3,1,"
             "pi,pi+,2pi,7,4pi} x sigma in +-{0,1e-30,eps-1ulp,eps,eps+1ulp,2eps,64eps,2^20 eps,sqrt(eps),1e-3,1,8}, axis-aligned and "
             "generic direction, fixed translations (0, O(1), 1e3, 1e-30, up to 1e9), quarter-decade log sweeps of theta (1e-18..10) "
             "and |sigma| (1e-18..5.6, both signs), fixed mixed-regime batch cuts, degenerate shapes; grid: theta ladder x signed "
@@ -50,7 +50,7 @@ META = {
     "assumptions": ["generator bounds: rotation angle <= 4*pi, |log-scale| <= 8, finite inputs",
                     "relative error of the rotation block is measured against 1 (unit quaternion / orthogonal matrix), of the "
                     "scale block against e^sigma, of the translation block against |tau|_inf * (e^sigma-1)/sigma"],
-    "partial": ["rounding: the clause 'relative error at most k*eps / k*sqrt(eps)' is decided as theorem over the reals (38 theorems: "
+    "partial": ["rounding: the clause 'relative error at most k*eps / k*sqrt(eps)' is decided as theorem over the reals (40 theorems: "
                 "matrix(Exp x) = exp(generator) in every exact regime of all four types, entrywise bounds <= 9*eps*e^|sigma|*(1+|tau|_1) "
                 "for every input) + measured agreement of the float code with the 192-bit model and with mpmath on the generated inputs"],
 }
@@ -328,6 +328,9 @@ def check_batch(ctx: Ctx, stream, name, dtype, rows, shape, api, lines, metas, e
                 problems.append("repeat: x.matrix() differs from x.Exp().matrix()")
             ctx.count("repeat-calls")
     except Exception as ex:  # the real code must not raise on a valid algebra element
+        if mode in (2, 7):   # inference_mode / nn.Parameter through ltype.Exp are not documented usage: observation only
+            ctx.count(f"observation.raises.{MODES[mode]}")
+            return
         ctx.fail(case, f"raises: Exp/matrix on {U.ALG[name]} {dtype} shape {tuple(shape)} raised {type(ex).__name__}: {str(ex)[:160]}")
         return
     for pr in problems:
@@ -594,7 +597,8 @@ def _corpus_batches():
                 kk += 3
                 yield name, dtype, rows, shp, 0, 0, (nn_ <= 16)
                 if nn_ <= 9:
-                    yield name, dtype, [reps[4 + (i % 2)] for i in range(nn_)], shp, 0, 0, False      # homogeneous large
+                    yield name, dtype, [reps[4 + (i % 2)] for i in range(nn_)], shp, 0, 0, True       # homogeneous large
+                    yield name, dtype, [reps[i % 2] for i in range(nn_)], shp, 0, 0, True             # homogeneous zero / tiny
             # density around the switch-over points: eps(1 +- k ulp), eps(1 +- 2^-10), eps(1 +- 1e-3), both blocks, both signs
             dens = []
             for rel in (-1e-3, -2.0 ** -10, -3 * e, -2 * e, -e, -e / 2, 0.0, e, 2 * e, 3 * e, 2.0 ** -10, 1e-3):
@@ -669,7 +673,14 @@ def copies_probe(ctx: Ctx):
                 objs = {"original": x, "deepcopy": copy.deepcopy(x), "pickle": pickle.loads(pickle.dumps(x)), "clone": x.clone()}
                 shallow = copy.copy(x)
                 bump = torch.tensor(rows, dtype=torch.float64).to(D)
-                for step, (who, fac) in enumerate((("original", 0.5), ("deepcopy", -0.25), ("pickle", 2.0), ("clone", 0.0), ("original", 1.5))):
+                sched = [("original", 0.5), ("deepcopy", -0.25), ("pickle", 2.0), ("clone", 0.0), ("original", 1.5), ("GEN2", 0.0),
+                         ("deepcopy2", 0.5), ("pickle2", -0.5), ("deepcopy2", 0.25), ("original", -1.0), ("pickle2", 0.125),
+                         ("deepcopy2", 1.0), ("deepcopy", 0.75), ("pickle2", -2.0)]
+                for step, (who, fac) in enumerate(sched):
+                    if who == "GEN2":   # copies taken from an object that has a history of updates and reads
+                        objs["deepcopy2"] = copy.deepcopy(objs["original"])
+                        objs["pickle2"] = pickle.loads(pickle.dumps(objs["original"]))
+                        continue
                     objs[who].add_(fac * bump)
                     for label, o in list(objs.items()) + [("copy.copy(shares storage)", shallow)]:
                         ref = P.LieTensor(torch.Tensor.as_subclass(o, torch.Tensor).detach().clone(), ltype=lt_)
@@ -683,8 +694,9 @@ def copies_probe(ctx: Ctx):
                                      f"(step {step}) is not the Exp of its current data ({dtype})")
                 if not torch.equal(torch.Tensor.as_subclass(shallow, torch.Tensor), torch.Tensor.as_subclass(x, torch.Tensor)):
                     ctx.count("copies.shallow-detached")
-            except Exception as ex:
-                ctx.fail(case, f"raises: copies probe on {U.ALG[name]} raised {type(ex).__name__}: {str(ex)[:140]}")
+            except Exception as ex:   # copy operations that do not work on this tree are an observation, not a verdict
+                ctx.count("observation.copies-probe-raised")
+                ctx.notes.append(f"copies probe on {U.ALG[name]} {dtype} raised {type(ex).__name__}: {str(ex)[:120]}")
 
 
 def run_corpus(ctx: Ctx, lines, metas):
